@@ -54,7 +54,8 @@ fn prop_c06_get(before: &Url, op: &Op, after: &Url, status: &str) -> Option<Stri
             }
         }
         Op::SetScheme(s) => {
-            let low = s.to_ascii_lowercase();
+            // the scheme state stops at the first ':' (status ok means nothing follows it)
+            let low = s.split(':').next().unwrap_or("").to_ascii_lowercase();
             let low: String = low.chars().filter(|c| !matches!(c, '\t' | '\n' | '\r')).collect();
             if after.scheme() != low {
                 return Some(format!("set_scheme({:?}) reads back {:?}", s, after.scheme()));
